@@ -8,6 +8,10 @@
 //
 // Part 2 ("commit => the real header verifier accepts", real crypto) is
 // supplied by another file through the Part2 variable.
+//
+// announced.go: every event the Voter posts is kept as the live object and
+// re-read after every later op ("announced events are immutable"), and every
+// announced commit is packed again late, as its consumer does.
 package c03
 
 import (
@@ -135,6 +139,8 @@ func (r *ref) count(k ctxKey, house bool, kind ucon.VoteType, sender, hash strin
 type Cfg struct {
 	c02.Cfg
 	Echo     bool              // own votes may be gossiped back to the node
+	Post     bool              // after the scripted prelude the menu is the post-announcement alphabet (announced.go: postEnabled)
+	Script   []string          // scripted prelude applied by Reset THROUGH the reference model (c02.Cfg.Prelude bypasses it)
 	Variants []string          // adversarial delivery variants in the alphabet
 	VarKinds []ucon.VoteType   // kinds the variants are generated for
 	wname    map[string]uint32 // sender name -> weight
@@ -149,6 +155,10 @@ type Sys struct {
 	cfg *Cfg
 	ref *ref
 	r   *mc.Run
+
+	ann      []*announced   // everything the Voter posted so far: live object + rendering (announced.go)
+	inScript bool           // Reset is applying the scripted prelude
+	preViols []mc.Violation // violations raised inside the scripted prelude: reported with the first explored op
 }
 
 func NewSys(r *mc.Run, cfg *Cfg) *Sys {
@@ -170,6 +180,45 @@ func (s *Sys) Reset() {
 	s.Sys.Reset()
 	s.ref = newRef()
 	s.ref.enter(s.cur())
+	s.ann, s.preViols = nil, nil
+	if len(s.cfg.Script) == 0 {
+		return
+	}
+	// scripted prelude: ops of the GENERAL menu, applied through the reference model and every oracle
+	s.inScript = true
+	defer func() { s.inScript = false }()
+	for _, op := range s.cfg.Script {
+		ok := false
+		for _, e := range s.Sys.Enabled() {
+			ok = ok || e == op
+		}
+		if !ok {
+			panic(fmt.Sprintf("c03 harness: scripted op %q not enabled (enabled: %v)", op, s.Sys.Enabled()))
+		}
+		s.Apply(op)
+		nc := s.Sys.NoCount
+		s.Sys.NoCount = true // the script's counters are not evidence of exploration
+		vs := s.Sys.Check()
+		s.Sys.NoCount = nc
+		if len(vs) > 0 {
+			for _, v := range vs {
+				v.Detail = fmt.Sprintf("in the scripted prelude %v at op %q; %s", s.cfg.Script, op, v.Detail)
+				s.preViols = append(s.preViols, v)
+			}
+			break
+		}
+	}
+}
+
+// Enabled: the driver's menu, or (systems with Post) the post-announcement alphabet.
+func (s *Sys) Enabled() []string {
+	if !s.cfg.Post || s.inScript {
+		return s.Sys.Enabled()
+	}
+	if s.Sys.Dead() {
+		return nil
+	}
+	return s.postEnabled()
 }
 
 func (s *Sys) cur() ctxKey { return ctxKey{s.Round, s.Index} }
@@ -290,10 +339,18 @@ func (s *Sys) extApply(op string) (string, bool) {
 func (s *Sys) Apply(op string) string {
 	pre := s.Sys.Dump()
 	ob := s.Sys.Apply(op)
+	if !s.inScript && len(s.preViols) > 0 {
+		for _, v := range s.preViols {
+			s.Sys.AddViolation(v)
+		}
+		s.preViols = nil
+	}
 	if s.Sys.Dead() {
 		return ob
 	}
 	s.after(op, ob, pre)
+	s.recheckAnnounced(op) // every EARLIER announcement, read again through its live object
+	s.noteAnnounced()      // what this op announced
 	return ob
 }
 
@@ -715,6 +772,7 @@ func (s *Sys) KeyString() string {
 	}
 	sort.Strings(ps)
 	b.WriteString(" " + strings.Join(ps, " "))
+	b.WriteString("|ANN " + s.annKey())
 	return b.String()
 }
 
@@ -723,6 +781,7 @@ func (s *Sys) KeyString() string {
 type plan struct {
 	cfg   Cfg
 	depth int
+	dfs   bool // every op sequence up to depth, no state merging (the post-announcement systems)
 }
 
 func peers(ws ...uint32) []c02.PeerCfg {
@@ -768,6 +827,34 @@ func plans(quick bool) []plan {
 		c.Variants = []string{"oldidx", "oldround", "future", "aheadsame", "lagold", "claim", "spoof", "wrongkind"}
 		c.VarKinds = []ucon.VoteType{pc}
 	})
+	// post-announcement systems (announced.go): a scripted prelude reaches an announcement, then EVERY sequence over
+	// the votes that can touch the announced sets (both blocks, current and old context), next index, new round
+	post := func(name string, script []string, f func(*Cfg)) Cfg {
+		c := mk(name, func(c *Cfg) {
+			c.Kinds = []ucon.VoteType{pv, pc}
+			c.Rounds, c.MaxIndex = 2, 2
+			c.MaxSel = []string{"A"}
+			c.Post, c.Script = true, script
+			if f != nil {
+				f(c)
+			}
+		})
+		return c
+	}
+	// commit exactly at the quorum (T=3, q=2) on the precommits of p1, p2 (weight 1 each)
+	afterCommit := post("after-commit-T3", []string{"v:p1:PC:A", "v:p2:PC:A"}, nil)
+	// T=6, q=4: own prevote + p1 + p3 = 4 -> own precommit; own + p1 + p3 precommits = 4 -> commit exactly at the quorum, own vote attached
+	afterCommitOwn := post("after-commit-own-vote-T6", []string{"step2:A", "v:p1:PV:A", "v:p3:PV:A", "v:p1:PC:A", "v:p3:PC:A"}, func(c *Cfg) { c.T = 6 })
+	// certificate round: precommits of p1, p2 (quorum 2) -> own certificate vote; p1's certificate vote -> certificate quorum 2 -> commit
+	afterCert := post("after-commit-cert-T3", []string{"v:p1:PC:A", "v:p2:PC:A", "v:p1:CT:A"}, func(c *Cfg) {
+		c.Kinds = []ucon.VoteType{pc, ct}
+		c.BaseRound, c.Rounds = certRound, 1
+	})
+	// commit, a late precommit (pending header update), next index: the UpdateExistedHeaderEvent of index 1 is posted
+	afterUpdate := post("after-header-update-T3", []string{"v:p1:PC:A", "v:p2:PC:A", "v:p3:PC:A", "next"}, nil)
+	posts := func(d int) []plan {
+		return []plan{{afterCommit, d, true}, {afterCommitOwn, d, true}, {afterCert, d, true}, {afterUpdate, d, true}}
+	}
 	if quick {
 		nextq := next
 		nextq.Kinds = []ucon.VoteType{nx}
@@ -775,19 +862,19 @@ func plans(quick bool) []plan {
 		// certificate round over TWO round indexes: a quorum status latched in index 1 must not survive into index 2
 		certIdx2 := certT3
 		certIdx2.Name, certIdx2.MaxIndex = "cert-idx2-T3", 2
-		return []plan{{nextq, 5}, {adv, 4}, {escT3, 5}, {certIdx2, 5}, {certT3, 6}, {escT6, 7}}
+		return append(posts(3), []plan{{cfg: nextq, depth: 5}, {cfg: adv, depth: 4}, {cfg: escT3, depth: 5}, {cfg: certIdx2, depth: 5}, {cfg: certT3, depth: 6}, {cfg: escT6, depth: 7}}...)
 	}
 	t := func(c Cfg, name string, f func(*Cfg)) Cfg { f(&c); c.Name = name; return c }
-	return []plan{
-		{mk("esc-bls-T3", func(c *Cfg) { c.Kinds = []ucon.VoteType{pv, pc}; c.BLS = true; c.MaxIndex = 1 }), 4},
-		{next, 6},
-		{t(adv, "adversarial-all-kinds-T3", func(c *Cfg) { c.VarKinds = []ucon.VoteType{pv, pc} }), 5},
-		{t(escT3, "esc-T4", func(c *Cfg) { c.T = 4 }), 6},
-		{t(certT3, "cert-T6", func(c *Cfg) { c.T, c.Tc = 6, 6 }), 7},
-		{t(certT3, "cert-prevotes-T3", func(c *Cfg) { c.Kinds = []ucon.VoteType{pv, pc, ct}; c.MaxIndex = 2 }), 6},
-		{escT6, 9},
-		{escT3, 7},
-	}
+	return append(posts(4), []plan{
+		{cfg: mk("esc-bls-T3", func(c *Cfg) { c.Kinds = []ucon.VoteType{pv, pc}; c.BLS = true; c.MaxIndex = 1 }), depth: 4},
+		{cfg: next, depth: 6},
+		{cfg: t(adv, "adversarial-all-kinds-T3", func(c *Cfg) { c.VarKinds = []ucon.VoteType{pv, pc} }), depth: 5},
+		{cfg: t(escT3, "esc-T4", func(c *Cfg) { c.T = 4 }), depth: 6},
+		{cfg: t(certT3, "cert-T6", func(c *Cfg) { c.T, c.Tc = 6, 6 }), depth: 7},
+		{cfg: t(certT3, "cert-prevotes-T3", func(c *Cfg) { c.Kinds = []ucon.VoteType{pv, pc, ct}; c.MaxIndex = 2 }), depth: 6},
+		{cfg: escT6, depth: 9},
+		{cfg: escT3, depth: 7},
+	}...)
 }
 
 func planByName(name string) *plan {
@@ -805,13 +892,14 @@ func planByName(name string) *plan {
 // Run is the check entry point.
 func Run(r *mc.Run) {
 	r.Level = "model_checking"
-	r.Rule = "BFS over the reachable states of the real ucon.Voter driven through updateContext / processVoteMsg (one handler call = one atomic step): step timers in timer order, any vote of any peer (weights 1,1,2; repeated = duplicate, other block = equivocation), adversarial deliveries (stale index/round, future, handler/voter context skew, over-claimed weight, spoofed sender, invalid credential, house sender, certificate vote outside a certificate round), next index / new round; oracle = reference tally recomputed from the op history (first vote per distinct valid chamber sender, equivocators weigh 0, own vote once) checked against every own precommit / certificate vote / CommitEvent / RoundIndexChangeEvent, against the vote sets attached to commits, and against the Voter's own tallies in every state; states merged on a canonical key of all Voter and tally fields plus the reference model; distinct = distinct keys"
+	r.Rule = "BFS over the reachable states of the real ucon.Voter driven through updateContext / processVoteMsg (one handler call = one atomic step): step timers in timer order, any vote of any peer (weights 1,1,2; repeated = duplicate, other block = equivocation), adversarial deliveries (stale index/round, future, handler/voter context skew, over-claimed weight, spoofed sender, invalid credential, house sender, certificate vote outside a certificate round), next index / new round; oracle = reference tally recomputed from the op history (first vote per distinct valid chamber sender, equivocators weigh 0, own vote once) checked against every own precommit / certificate vote / CommitEvent / RoundIndexChangeEvent, against the vote sets attached to commits, and against the Voter's own tallies in every state; states merged on a canonical key of all Voter and tally fields plus the reference model plus the vote sets of every CommitEvent / UpdateExistedHeaderEvent announced so far; distinct = distinct keys || ANNOUNCED EVENTS (announced.go; the consumer of a posted event runs later, on another goroutine): every event the Voter posts (CommitEvent, UpdateExistedHeaderEvent, RoundIndexChangeEvent, SendMessageEvent, double-vote Evidence) is kept as the LIVE object handed to the mux and rendered completely (round, index, block, every attached vote with index, weight, signature, proof) at the announcement; after EVERY later op of the execution it is rendered again and must read the same, and every announced CommitEvent is packed again from the live object through the real Voter.PackVotes (Server.commit's packing statement) and counted like consensus.go:verifyVotes (signer recovered from the vote signature over hash|round|index, distinct entitled chamber members with verifying credentials, claimed weight = sortition weight): the quorum it was announced on must still be there (certificate rounds: both lists); systems after-*: DFS over EVERY op sequence (no state merging; quick depth 3, thorough 4) that follows a scripted prelude reaching an announcement — commit exactly at the quorum by p1+p2 (T=3), commit exactly at the quorum with the node's own precommit attached (T=6), certificate-round commit (precommits p1+p2, certificate votes own+p1), commit + late precommit + next index (UpdateExistedHeaderEvent posted) — over the post-announcement alphabet: precommits (certificate rounds: and certificate votes) of every entitled peer for BOTH blocks in the current context, the same precommits for the previous round index / previous round through the old-message path, the node's own vote gossiped back, next index, new round"
 	total := 160 * time.Second
 	if !r.Quick() {
 		total = 24 * time.Minute
 	}
 	r.Assume("credentials are stubbed: a vote's credential verifies iff its claimed weight is the sender's configured sortition weight (real VRF credentials are property C04)")
 	r.Assume("step timers arrive in timer order; steps 1 and 3 are folded into 0 and 2 (see C02)")
+	r.Assume("an event counts as announced once it was handed to the event mux (AsyncPost); its payload is rendered at the end of the handler call that posted it (the harness consumes posts synchronously) and compared after every later handler call; votes attached to an event are compared by value (the Voter and the event share the *SingleVote objects by design: changing one in place is a change of the announced event)")
 	r.Assume("the completeness oracle ('a counted quorum does escalate') is not evaluated in a context where a vote was counted through the msgOld path, which by design skips the escalation check")
 	ps := plans(r.Quick())
 	depths := map[string]int{}
@@ -826,6 +914,15 @@ func Run(r *mc.Run) {
 		r.SetBudget(time.Since(r.Start) + (total-time.Since(r.Start))/time.Duration(len(ps)-i))
 		depths[p.cfg.Name] = p.depth
 		f := func() mc.System { c := p.cfg; return NewSys(r, &c) }
+		if p.dfs {
+			before := r.Executions
+			r.DFSAll(f, mc.SeqOpts{Name: p.cfg.Name, Depth: p.depth, ShardDepth: 1})
+			r.SetExtra(p.cfg.Name+"_sequences", r.Executions-before)
+			r.SetExtra(p.cfg.Name+"_script", strings.Join(p.cfg.Script, " ; "))
+			r.SetExtra(p.cfg.Name+"_quorums", fmt.Sprintf("T=%d q=%d Tc=%d qc=%d", p.cfg.T, quorum(p.cfg.T, false), p.cfg.Tc, quorum(p.cfg.Tc, true)))
+			r.ConfirmSeq(p.cfg.Name, func() mc.System { c := p.cfg; s := NewSys(r, &c); s.Sys.NoCount = true; return s })
+			continue
+		}
 		n := r.BFS(f, mc.SeqOpts{Name: p.cfg.Name, Depth: p.depth, MaxStates: 2500000})
 		r.SetExtra(p.cfg.Name+"_states", n)
 		r.SetExtra(p.cfg.Name+"_quorums", fmt.Sprintf("T=%d q=%d Tc=%d qc=%d", p.cfg.T, quorum(p.cfg.T, false), p.cfg.Tc, quorum(p.cfg.Tc, true)))
@@ -860,6 +957,9 @@ func Replay(r *mc.Run, v *mc.Violation) {
 		return
 	}
 	c := p.cfg
+	if len(c.Script) > 0 {
+		fmt.Printf("  scripted prelude of system %s (applied by Reset): %s\n", c.Name, strings.Join(c.Script, " ; "))
+	}
 	obs, viols, err := mc.ReplaySeq(NewSys(r, &c), v.Ops)
 	for i, op := range v.Ops {
 		o := ""
